@@ -84,7 +84,8 @@ func genInitVer(t *rapid.T) uint64 {
 	if rapid.IntRange(0, 3).Draw(t, "useInit") != 0 {
 		return 0
 	}
-	return rapid.SampledFrom([]uint64{1, 2, 7, 1 << 33}).Draw(t, "initVer")
+	// small values, varint / zig-zag boundaries (63|64, 127|128, 8191|8192), beyond 32 bits
+	return rapid.SampledFrom([]uint64{1, 2, 7, 63, 64, 100, 127, 128, 8191, 8192, 1<<31 - 1, 1 << 33}).Draw(t, "initVer")
 }
 
 // Profile: weights of the step kinds for one property.
@@ -102,7 +103,7 @@ var allReads = []string{"get", "has", "getwithindex", "getbyindex", "iterate", "
 	"versionedproof", "hash", "workinghash", "imhash", "getversioned", "getimmutable", "export"}
 
 var baseWeights = map[string]int{"set": 30, "remove": 12, "save": 18, "rollback": 3, "reopen": 7, "prune": 7, "prune_refuse": 1,
-	"lvfo": 3, "dvf": 2, "setnil": 1, "read": 0, "hop": 0, "iter": 0}
+	"lvfo": 3, "dvf": 2, "setnil": 1, "read": 0, "hop": 0, "iter": 0, "pin": 0, "unpin": 0}
 
 func weights(over map[string]int) map[string]int {
 	m := map[string]int{}
@@ -157,6 +158,8 @@ func GenOp(t *rapid.T, w *World, p *Profile) Op {
 	add("setnil", true)
 	add("read", true)
 	add("iter", true)
+	add("pin", w.Latest > 0 && len(w.Pins) < 2)
+	add("unpin", len(w.Pins) > 0)
 	// the importer allocates a nonce table of size version+1: keep imports to realistic version numbers
 	add("hop", w.Latest > 0 && !w.Dirty && w.Latest < 1<<20)
 	total := 0
@@ -223,6 +226,15 @@ func GenOp(t *rapid.T, w *World, p *Profile) Op {
 	case "hop":
 		c := genCfg(t, false)
 		return Op{Kind: "hop", N: rapid.Int64Range(w.First, w.Latest).Draw(t, "ver"), Flag: rapid.Bool().Draw(t, "compress"), Cfg: &c}
+	case "pin":
+		return Op{Kind: "pin", N: rapid.Int64Range(w.First, w.Latest).Draw(t, "pinv")}
+	case "unpin":
+		vs := make([]int64, 0, len(w.Pins))
+		for v := range w.Pins {
+			vs = append(vs, v)
+		}
+		sort.Slice(vs, func(i, j int) bool { return vs[i] < vs[j] })
+		return Op{Kind: "unpin", N: rapid.SampledFrom(vs).Draw(t, "unpinv")}
 	case "iter":
 		keys := unionKeys(w.WKV)
 		if w.Latest > 0 {
